@@ -130,9 +130,12 @@ def worker(job, extra):
         res['outcome'] = 'deadlock'
         tdl = log[-1][0]
         exp = {s_: float(tdl) - float(t0) for s_, t0 in Qx.first.items()}
+        # exact=k rounds every date to k significant digits: compare at that resolution (dates here reach several thousand)
+        kx = spec.get('exact')
+        tol_ = (lambda v: 1e-9) if not kx else (lambda v: 1e-9 + 10.0 ** (3 - kx) * max(1.0, abs(float(tdl))))
         got = Qx.times_to_deadlock
         if set(exp) != set(got): res['viol'].append(('times_to_deadlock_keys', (len(exp), len(got))))
-        elif any(abs(exp[k] - float(got[k])) > 1e-9 for k in exp): res['viol'].append(('times_to_deadlock_values', [(k, exp[k], float(got[k])) for k in exp if abs(exp[k] - float(got[k])) > 1e-9][:3]))
+        elif any(abs(exp[k] - float(got[k])) > tol_(exp[k]) for k in exp): res['viol'].append(('times_to_deadlock_values', [(k, exp[k], float(got[k])) for k in exp if abs(exp[k] - float(got[k])) > tol_(exp[k])][:3]))
         elif got and min(got.values()) < 0: res['viol'].append(('times_to_deadlock_negative', min(got.values())))
         res['ttd_states'] = len(got)
     if res['viol']: res['spec'] = spec
